@@ -75,13 +75,13 @@ type IPWalk struct {
 	// RootSucc: a Return of the entry function was reached on a path on which its error result is not known to be non-nil
 	RootSucc map[Node]bool
 
-	seen     map[ipKey]bool
-	parent   map[ipKey]ipKey
-	TooDeep  bool
+	seen    map[ipKey]bool
+	parent  map[ipKey]ipKey
+	TooDeep bool
 	// StartFailed: the walk starts after the start nodes (call instructions) assuming each returned a non-nil error.
 	StartFailed bool
 	Reached     map[Node]bool
-	firstKey map[Node]ipKey
+	firstKey    map[Node]ipKey
 }
 
 func (w *IPWalk) child(ctx *Ctx, site ssa.Instruction, fn *ssa.Function, mc *ssa.MakeClosure, mcCtx *Ctx) *Ctx {
@@ -639,7 +639,9 @@ func accessPath(ctx *Ctx, v ssa.Value) AccessPath {
 		case *ssa.UnOp:
 			if x.Op == token.MUL {
 				if fa, ok := x.X.(*ssa.FieldAddr); ok {
-					chain = "." + fieldShort(fa) + chain
+					if fieldShort(fa) != "" {
+						chain = "." + fieldShort(fa) + chain
+					}
 					v = fa.X
 					continue
 				}
@@ -672,11 +674,15 @@ func accessPath(ctx *Ctx, v ssa.Value) AccessPath {
 		case *ssa.Field:
 			st, _ := x.X.Type().Underlying().(interface{ NumFields() int })
 			_ = st
-			chain = "." + fieldShort(x) + chain
+			if fieldShort(x) != "" {
+				chain = "." + fieldShort(x) + chain
+			}
 			v = x.X
 			continue
 		case *ssa.FieldAddr:
-			chain = "." + fieldShort(x) + chain
+			if fieldShort(x) != "" {
+				chain = "." + fieldShort(x) + chain
+			}
 			v = x.X
 			continue
 		case *ssa.Parameter:
